@@ -240,7 +240,29 @@ def add_bv_inputs(inp):
 # ----------------------------------------------------------------------------- replay in a real-ctypes process
 
 def subprocess_replay(pid: str, harness: str, cex: dict):
-    """re-run a counterexample on plain ints with the REAL ctypes in a fresh process"""
+    """re-run a counterexample on plain ints with the REAL ctypes in a fresh process.  Code that computes with the VALUES of raw bytes
+    (e.g. int.from_bytes) sees tag numbers in the model, so the model's counterexample values can be ones for which the real code
+    happens to agree; if the solver's valuation does not reproduce, the same obligation is replayed on a few perturbed valuations
+    (each field xor-ed with a pattern inside its magnitude class) -- whatever is reported has been reproduced on the real code."""
+    rep, out = _subprocess_replay_once(pid, harness, cex)
+    if rep is not False:
+        return rep, out
+    for pat in (0x0102, 0x5A3C, 0x00FF):
+        vals = {}
+        for k, v in cex.get("values", {}).items():
+            if isinstance(v, int) and not isinstance(v, bool) and v >= 0:
+                mask = 0xF if v < 16 else 0xFF if v < 256 else 0xFFFF if v < 65536 else 0x7FFFFFFF
+                vals[k] = v ^ (pat & mask)
+            else:
+                vals[k] = v
+        rep2, out2 = _subprocess_replay_once(pid, harness, dict(cex, values=vals))
+        if rep2:
+            cex["values"] = vals          # the replay file must carry the valuation that reproduced
+            return True, "(reproduced on a perturbed valuation) " + out2
+    return rep, out
+
+
+def _subprocess_replay_once(pid: str, harness: str, cex: dict):
     os.makedirs(REPLAY_DIR, exist_ok=True)
     path = os.path.join(REPLAY_DIR, f".tmp_{pid}_{os.getpid()}_{abs(hash(json.dumps(cex, sort_keys=True, default=repr))) % 10**10}.json")
     blob = dict(cex)
